@@ -1489,8 +1489,17 @@ class DistPearson6(DistContinuous):
         """
         y1: float = self._dist1.draw()
         y2: float = self._dist2.draw()
+        tries: int = 0
         while y1 == 0.0 and y2 == 0.0:
             # both gamma variates underflowed to zero: draw again
+            tries += 1
+            if tries > 100:
+                # the shapes are so small that the variates always underflow.
+                # In that limit the ratio is zero or infinite; the numerator 
+                # is the larger one with probability alpha1/(alpha1 + alpha2)
+                u = self._stream.next_float()
+                p1 = self._alpha1 / (self._alpha1 + self._alpha2)
+                return math.inf if u < p1 else 0.0
             y1 = self._dist1.draw()
             y2 = self._dist2.draw()
         # a denominator that underflowed to zero gives an infinite ratio
